@@ -60,6 +60,7 @@ package repository
 // Reading objects does not change the repository.
 //@ func RepoData.ReadCommit
 //@   modifies nothing
+//@   ensures [the-commit-asked-for] result1 == nil ==> result.Hash == hash
 // treeLen/treeName: the entries of the git tree behind a hash (the object store is content addressed and
 // immutable, so these are functions of the hash).
 //@ spec func treeLen(h Hash) int
@@ -181,3 +182,24 @@ package repository
 //@ func Index.Remove
 //@   modifies indexedDocs
 //@   ensures result == nil ==> indexedDocs == update(old(indexedDocs), id, false)
+
+// ---- opening a repository: which clocks get rebuilt (C05) ---------------------------------------------------
+// clockExists(name): the clock's file is there (and readable) when the repository is opened.
+//@ spec func clockExists(name string) bool
+//@ func (*GoGitRepo).getClock
+//@   trusted
+//@   modifies nothing
+//@   ensures (result1 == nil) == clockExists(name)
+// Every clock loader that declares a clock which does not exist is scheduled to run (its Witnesser rebuilds the
+// clocks of its entities from the stored data) - whichever of its clocks is the missing one.
+//@ func OpenGoGitRepo
+//@   props C05
+//@   check [incomplete-loader-is-run] err == nil ==> (forall k int :: { clockLoaders[k] } 0 <= k && k < len(clockLoaders) && (exists j int :: { clockLoaders[k].Clocks[j] } 0 <= j && j < len(clockLoaders[k].Clocks) && !clockExists(clockLoaders[k].Clocks[j])) ==> (exists i int :: { loaderToRun[i] } 0 <= i && i < len(loaderToRun) && loaderToRun[i] == clockLoaders[k]))
+//@   loop 1
+//@     invariant [fresh] loaderToRun == nil || fresh(loaderToRun)
+//@     invariant [scheduled] forall k int :: { clockLoaders[k] } 0 <= k && k <= rangeindex && (exists j int :: { clockLoaders[k].Clocks[j] } 0 <= j && j < len(clockLoaders[k].Clocks) && !clockExists(clockLoaders[k].Clocks[j])) ==> (exists i int :: { loaderToRun[i] } 0 <= i && i < len(loaderToRun) && loaderToRun[i] == clockLoaders[k])
+//@   loop 2
+//@     invariant [all-exist-so-far] allExist == (forall j int :: { loader.Clocks[j] } 0 <= j && j <= rangeindex ==> clockExists(loader.Clocks[j]))
+//@     invariant [same-loader] loader == clockLoaders[rangeindex1 + 1]
+//@   loop 3
+//@     invariant [kept] forall k int :: { clockLoaders[k] } 0 <= k && k < len(clockLoaders) && (exists j int :: { clockLoaders[k].Clocks[j] } 0 <= j && j < len(clockLoaders[k].Clocks) && !clockExists(clockLoaders[k].Clocks[j])) ==> (exists i int :: { loaderToRun[i] } 0 <= i && i < len(loaderToRun) && loaderToRun[i] == clockLoaders[k])
